@@ -183,6 +183,8 @@ CHECKS = {
          "and values: equal byte strings fed to SHA-256 imply equal validation answers (the framing is a prefix code, "
          "C13_framing_is_a_prefix_code; induction on the encoder), hence validators that disagree are hashed from different "
          "bytes (C13_disagreeing_validators_are_hashed_from_different_bytes: equal digests would be a SHA-256 collision); "
+         "hash256() terminates on recursive types (C13_hash256_terminates_on_recursive_types: the table of active names is "
+         "restored by every call, no fuel from (|env|+1)(H+1) on is exhausted, every environment and tree); "
          "alias-boundary independence is refuted with a witness (cycle ids). The clauses 'real SHA-256' "
          "(against node:crypto), renaming/alias/order/description independence and 'different behaviour => different digest' are "
          "additionally searched on the implementation over generated trees, variants and single-field mutants.",
